@@ -52,7 +52,7 @@ def run(repo, tier) -> Result:
         "for well-formed input is enumerated from the abstract-interpretation sites and discharged by a rule: each / // % needs a denominator that is a positive "
         "config/constant expression, is dominated by a non-zero test on the same value number, or is non-zero in the sign domain (R-DIV); each sqrt needs a "
         "non-negative argument (R-SQRT); presence of a reading must not be tested by truthiness when its sign domain includes 0 (R-TRUTH: a legitimate 0.0 would read "
-        "as missing and turn the output into None for good); every literal helper key / reading name / dotted field must resolve in the composition tree (R-WIRE). "
+        "as missing and turn the output into None for good); every literal helper key / reading name / dotted field must resolve in the composition tree (R-WIRE); a helper reading used in arithmetic under the presence test of a sibling helper of the same kind must have periods provably <= the sibling's, given the ordering `_validate_fields` establishes (R-ORDERED). "
         "Sign summaries of helper classes (TR, ATR, STDEV >= 0; RMA/EMA/SMA/WMA preserve the sign of a non-negative input) are computed inductively."
     )
     res.assumptions = [
@@ -76,6 +76,11 @@ def run(repo, tier) -> Result:
     check_sqrt("C09", res, repo, cas, signs)
     check_truth("C09", res, repo, cas, signs)
     check_wire("C09", res, repo, cas)
+    # arithmetic on a helper reading that only a sibling helper's presence test covers: the sibling must be the slower one
+    from ..rules_order import check_ordered
+
+    res.rule("R-ORDERED", floor=3, what="helper readings used in arithmetic under another helper's presence test")
+    check_ordered("C09", res, repo, cas)
     # the `x != 0` guards in front of the divisions protect them only down to the rounding quantum: every stored reading (helpers
     # included) is rounded, so a decaying average reaches exactly 0 instead of a denormal whose reciprocal overflows to inf
     from ..driver import check_round_by
